@@ -2923,7 +2923,8 @@ def kind_enum_base(prog: Program) -> RuleResult:
         construct = f"{MODEL}:{cname}/identity-equality"
         values = [st.value for st in cls.body if isinstance(st, ast.Assign) and len(st.targets) == 1 and isinstance(st.targets[0], ast.Name)]
         consts = [ast.dump(v) for v in values if not (isinstance(v, ast.Call) and dotted(v.func) in ("auto", "enum.auto"))]
-        dup = sorted({unparse(v) for v in values if consts.count(ast.dump(v)) > 1})
+        member_names = {st.targets[0].id for st in cls.body if isinstance(st, ast.Assign) and len(st.targets) == 1 and isinstance(st.targets[0], ast.Name)}
+        dup = sorted({unparse(v) for v in values if consts.count(ast.dump(v)) > 1} | {unparse(v) for v in values if isinstance(v, ast.Name) and v.id in member_names})
         if dup:
             res.fail(construct, f"two members of {cname} are given the same value {dup[0]}: the second is an ALIAS of the first, so a cost vector has one entry for both events", mod, cls)
         elif bases and all(b.split(".")[-1] == "Enum" for b in bases):
@@ -4154,7 +4155,57 @@ def wrap_final_text(prog: Program) -> RuleResult:
     return res
 
 
+# ---------------------------------------------------------------------------
+# FILL-OBJECT-MAJOR
+
+
+def fill_object_major(prog: Program) -> RuleResult:
+    res = RuleResult(
+        "FILL-OBJECT-MAJOR",
+        "the tables are filled object by object: every call of a fill helper lies in a loop whose OUTERMOST traversal "
+        "is the post-order walk of the object tree, the species (and syntenies) being enumerated inside it - the entry "
+        "of an object at one species reads the entries of its children at EVERY species (a transferred child sits "
+        "anywhere), so filling species by species reads rows that are still empty",
+    )
+    targets = (
+        ("compute.reconciliation", "_compute_thl_table", ("_compute_thl_try_speciation", "_compute_thl_try_duplication_transfer")),
+        ("compute.super_reconciliation", "_compute_spfs_table", ("_compute_spfs_entry",)),
+        ("compute.unordered_super_reconciliation", "_compute_uspfs_table", ("_compute_uspfs_entry",)),
+    )
+    for modname, qual, helpers in targets:
+        mod = prog.module(modname)
+        fn = prog.func(modname, qual)
+        calls = [c for c in walk_no_nested(fn) if isinstance(c, ast.Call) and dotted(c.func) in helpers]
+        if not calls:
+            raise AnalysisError(f"{qual}: no call of {helpers} found")
+        construct = f"{modname}:{qual}/object-major"
+        bad = None
+        for c in calls:
+            around = [l for l in loops_around(fn, c) if isinstance(l, ast.For)]
+            if not around:
+                bad = (c, "is not in a loop")
+                break
+            it = around[0].iter
+            if isinstance(it, ast.Call) and (dotted(it.func) or "").endswith("tqdm") and it.args:
+                it = it.args[0]
+            if isinstance(it, ast.Name):
+                got = reaching(fn, it.id, around[0])
+                it = got if got is not None and not isinstance(got, Opaque) else it
+            over_objects = isinstance(it, ast.Call) and isinstance(it.func, ast.Attribute) and it.func.attr == "traverse" and "object_tree" in unparse(it.func.value)
+            strat = kwarg(it, "strategy", 0) if isinstance(it, ast.Call) else None
+            post = isinstance(strat, ast.Constant) and strat.value == "postorder"
+            if not (over_objects and post):
+                bad = (c, f"has `for {short(around[0].target)} in {short(around[0].iter, 50)}` as its outermost loop")
+                break
+        if bad:
+            res.fail(construct, f"`{short(bad[0], 50)}` {bad[1]}, not the post-order walk of the object tree: rows of child objects that a transfer reads are not final yet", mod, bad[0])
+        else:
+            res.ok(construct, f"{len(calls)} fill call(s) under the post-order walk of the object tree")
+    return res
+
+
 RULES = {
+    "FILL-OBJECT-MAJOR": fill_object_major,
     "WRAP-FINAL-TEXT": wrap_final_text,
     "SUPERTREE-DELEGATES": supertree_delegates,
     "PROTOCOL-ONLY": protocol_only,
